@@ -178,9 +178,7 @@ def opTraj (args impl : List String) : Verdict :=
     | some b =>
       match Traj.init b with
       | .error e =>
-        -- owned mode with an empty buffer is EINVAL from sb_buffer_init_from_bytes
-        if _mode = "o" ∧ b.isEmpty then expectTokens [toString Err.einval.code] impl ["traj:init-einval"]
-        else expectTokens [toString e.code] impl [s!"traj:init{e.code}"]
+        expectTokens [toString e.code] impl [s!"traj:init{e.code}"]
       | .ok tr =>
         match impl with
         | rc :: hdr :: answers =>
